@@ -22,8 +22,8 @@ Lemma parse_cmd_line h0 os c1 oe cmd ns c2 ne :
   (cmd = 97 \/ cmd = 99 \/ cmd = 100)%N ->
   (c1 && negb (N.eqb cmd 99) && c2 = false) ->
   parse_normal_range h0 (cmd_line os c1 oe cmd ns c2 ne) =
-  (true, mkHunk (mkRange os (if negb c1 && N.eqb cmd 97 then 0%Z else sadd ((if c1 then oe else os) - os) 1))
-                (mkRange ns (let nc0 := sadd ((if c2 then ne else ns) - ns) 1 in if N.eqb cmd 100 then (nc0 - 1)%Z else nc0))
+  (true, mkHunk (mkRange os (Z.max (if negb c1 && N.eqb cmd 97 then 0%Z else sadd ((if c1 then oe else os) - os) 1) 0))
+                (mkRange ns (Z.max (let nc0 := sadd ((if c2 then ne else ns) - ns) 1 in if N.eqb cmd 100 then (nc0 - 1)%Z else nc0) 0))
                 (body h0)).
 Proof.
   intros Hos Hoe Hns Hne Hcmd Hex. unfold parse_normal_range, cmd_line.
@@ -107,6 +107,7 @@ Proof.
     rewrite parse_cmd_line.
     + cbn [negb andb]. change (N.eqb 97 97) with true. change (N.eqb 97 100) with false. cbv iota zeta.
       rewrite span_count by (destruct Hn as (_ & Hc & _); exact Hc).
+      rewrite (Z.max_l (rcount (newr h)) 0) by lia. change (Z.max 0 0) with 0%Z.
       change (Z.of_nat 0) with 0%Z in Eo. rewrite <- Eo. destruct (oldr h), (newr h); reflexivity.
     + destruct Ho as (Hs & _); exact Hs.
     + exact in63_0.
@@ -127,7 +128,8 @@ Proof.
       * change (N.eqb 100 97) with false. change (N.eqb 100 100) with true. rewrite andb_false_r. cbv iota zeta.
         rewrite span_count by (destruct Ho as (_ & Hc & _); exact Hc).
         replace (sadd (rstart (newr h) - rstart (newr h)) 1 - 1)%Z with (rcount (newr h)).
-        -- destruct (oldr h), (newr h); reflexivity.
+        -- rewrite (Z.max_l (rcount (oldr h)) 0) by lia. rewrite (Z.max_l (rcount (newr h)) 0) by (rewrite En; cbn [length]; lia).
+           destruct (oldr h), (newr h); reflexivity.
         -- rewrite En. unfold sadd, sat64, MINZ, MAXZ. cbn [length]. lia.
       * destruct Ho as (Hs & _); exact Hs.
       * apply span_end_in63; assumption.
@@ -150,6 +152,7 @@ Proof.
       rewrite parse_cmd_line.
       * change (N.eqb 99 97) with false. change (N.eqb 99 100) with false. rewrite andb_false_r. cbv iota zeta.
         rewrite !span_count by (try (destruct Ho as (_ & Hc & _); exact Hc); destruct Hn as (_ & Hc & _); exact Hc).
+        rewrite (Z.max_l (rcount (oldr h)) 0) by lia. rewrite (Z.max_l (rcount (newr h)) 0) by lia.
         destruct (oldr h), (newr h); reflexivity.
       * destruct Ho as (Hs & _); exact Hs.
       * apply span_end_in63; assumption.
